@@ -208,6 +208,10 @@ def gen_project(rng, idx, ties):
         else:
             t.append(f"from lib{li} import {', '.join(fs + [cname])}")
             imported += [(f, "from") for f in fs] + [(cname, "fromcls")]
+            if rng.random() < 0.6:
+                # the SAME callees under a second spelling: equal call targets declared on two lines
+                t.append(f"import lib{li} as H{li}")
+                imported += [(f"H{li}.{f}", "alias") for f in fs]
     t.append("")
     t.append("GLOBAL = 3")
     t.append("")
@@ -240,6 +244,12 @@ def gen_project(rng, idx, ties):
         pool += [f"{A}.meth({B})", f"math.sin({A}.t)", f"os.path.join({A}, {B}.p)"]
         for nm, how in imported:
             pool += both(nm + "({})")
+        # make sure both spellings of one callee meet in one function now and then
+        aliased = [nm for nm, how in imported if how == "alias"]
+        forced = []
+        if aliased and rng.random() < 0.7:
+            nm = rng.choice(aliased)
+            forced = [f"{nm.split('.', 1)[1]}({A})", f"{nm}({B})"]
         if "cb" in params:
             pool += ["cb(a)"]
         if fi > 0:
@@ -248,7 +258,8 @@ def gen_project(rng, idx, ties):
                  f"loc = {A}.p\n    loc.q", f"GLOBAL.bit", f"{A}.u.v.w = {B}", f"del {B}.dd",
                  f"max({A}, {B})", f"({A}.k1, {B}.k2)", f"{A}.f1({B}.f2(), k={A}.f3)", "E.sm(a)" if "class E" in "".join(t) else "D()"]
         k = rng.randint(3, min(12, len(pool)))
-        body = rng.sample(pool, k)
+        body = rng.sample(pool, k) + forced
+        rng.shuffle(body)
         t.append(f"def f{fi}({', '.join(params)}):\n" + "".join(f"    {s}\n" for s in body) + f"    return {A}\n")
     files["target.py"] = "\n".join(t)
     return files
@@ -262,6 +273,10 @@ CORPUS = [
      "target.py": "from lib import *\n\ndef f(z):\n    return a(z)\n"},
     {"target.py": "lam = lambda z: z.w\n\ndef f0(a, b):\n    lam(a)\n    lam(b)\n\ndef f1(a, b):\n    f0(b, b.w)\n"
                   "    f0(a, a.w)\n\ndef f2(a, b):\n    f1(b, b.w)\n"},
+    # one callee under two import spellings, both called in one function: two call targets that are equal
+    # as symbols but declared on different lines (seeded C18-m3: a cache keyed on location-blind equality)
+    {"helper.py": "def helper(x, y):\n    return x.p + y.q\n",
+     "target.py": "from helper import helper\nimport helper as H\n\n\ndef f(a, b):\n    helper(a, b)\n    return H.helper(b, a)\n"},
 ]
 
 
@@ -425,6 +440,19 @@ def syn_fileir(rng, distinct_names=True, dup_ids=False):
     return FileIr(context=c, file_ir=d)
 
 
+def syn_twin(lineno):
+    """FileIr with one call whose target Func('helper', (x,)) is declared on `lineno`: two such documents
+    have call targets that are equal as symbols and differ in location only."""
+    file = Path("synth.py")
+    helper = Func(name="helper", interface=CallInterface(args=["x"]),
+                  location=Location(lineno=lineno, col_offset=0, end_lineno=lineno + 1, end_col_offset=14, file=file))
+    caller = Func(name="caller", interface=CallInterface(args=["a"]),
+                  location=Location(lineno=20, col_offset=0, end_lineno=21, end_col_offset=13, file=file))
+    call = Call(name="helper", args=CallArguments(args=["a"]), target=helper,
+                location=Location(lineno=21, col_offset=4, end_lineno=21, end_col_offset=13, file=file))
+    return FileIr(context=Context(parent=None, file=file), file_ir={caller: FunctionIr.new(calls=[call])})
+
+
 def syn_results(rng):
     r = {}
     for n in rng.sample(WORDS, rng.randint(0, 6)):
@@ -455,6 +483,13 @@ def _key_of(e):
 
 def _is_symbol(e):
     return isinstance(e, dict) and "o" in e and any(k == "type" for k, _ in e["o"])
+
+
+def _own_loc(e):
+    for k, v in e["o"]:
+        if k == "location":
+            return v
+    return None
 
 
 def _strip_loc(e):
@@ -499,13 +534,29 @@ def all_diffs(a, b, path=()):
             # sets of symbols: Python == ignores `location`, so compare the members modulo location
             sa, sb = [_strip_loc(e) for e in la], [_strip_loc(e) for e in lb]
             if sorted(map(common.canon, sa)) == sorted(map(common.canon, sb)):
-                yield ("set-member-location", _pathclass(path), list(path))
-                if sa != sb:
-                    ka, kb = [_key_of(e) for e in sa], [_key_of(e) for e in sb]
-                    if ka == kb and all(isinstance(k, str) for k in ka) and ka == sorted(ka):
-                        yield ("equal-sort-key", _pathclass(path), list(path))
-                    else:
-                        yield ("unsorted-collection", _pathclass(path), list(path))
+                # same members as Python compares them; pair them up and see WHICH location differs.
+                # (Since a47e117 the sort key contains the locations, so a changed location may also move
+                # a member among its equal-name neighbours: that is a consequence, not a second finding.)
+                ga, gb = {}, {}
+                for e, k in zip(la, sa):
+                    ga.setdefault(common.canon(k), []).append(e)
+                for e, k in zip(lb, sb):
+                    gb.setdefault(common.canon(k), []).append(e)
+                own = nested = False
+                for k, ea in ga.items():
+                    eb = gb[k]
+                    if len(ea) != 1 or len(eb) != 1:
+                        own = own or sorted(map(common.canon, ea)) != sorted(map(common.canon, eb))
+                        continue
+                    if ea[0] != eb[0]:
+                        if _own_loc(ea[0]) != _own_loc(eb[0]):
+                            own = True      # another representative of the same member (own location differs)
+                        else:
+                            nested = True   # same call site, but the embedded target's location differs
+                if own:
+                    yield ("set-member-location", _pathclass(path), list(path))
+                if nested:
+                    yield ("call-target-location", _pathclass(path), list(path))
                 return
         if len(la) == len(lb) and sorted(map(common.canon, la)) == sorted(map(common.canon, lb)):
             ka, kb = [_key_of(e) for e in la], [_key_of(e) for e in lb]
@@ -571,6 +622,8 @@ def order_signature(channel, which, d, a=None, b=None):
     if kind == "set-member-location" and which == "ir" and pc.split("/")[-1] in ("gets", "sets", "dels", "calls") \
             and "function_irs" in pc:
         return f"ir-set-member-location-depends-on-{channel}"
+    if kind == "call-target-location" and which == "ir":
+        return f"ir-call-target-location-depends-on-{channel}"
     if kind == "dict-key-order" and which == "ir" and pc.endswith("context/symbol_table") and a is not None \
             and _star_expansion_only(a, b, path):
         return f"ir-order-depends-on-{channel}:symbol-table-order:star-import-expansion"
@@ -622,6 +675,32 @@ def ser(kind, obj):
         return serialise_irs(target_name=obj.target_ir["filename"], target_ir=obj.target_ir["ir"],
                              import_irs=obj.import_irs)
     return serialise(obj, indent=4)
+
+
+def ser_fresh(kind, obj):
+    """Serialise with a converter in its import-time state (what a fresh interpreter has), leaving the
+    long-lived converter -- and whatever state it has accumulated over this run -- in place."""
+    from rattr.models.util._serialisation_helpers import make_json_converter
+    mod = sys.modules["rattr.models.util.serialise"]
+    keep = mod.__dict__["__json_converter"]
+    mod.__dict__["__json_converter"] = make_json_converter()
+    try:
+        return ser(kind, obj)
+    finally:
+        mod.__dict__["__json_converter"] = keep
+
+
+def ser_after(kind_a, obj_a, kind_b, obj_b):
+    """serialise(A) then serialise(B) in one fresh state; returns B's bytes."""
+    from rattr.models.util._serialisation_helpers import make_json_converter
+    mod = sys.modules["rattr.models.util.serialise"]
+    keep = mod.__dict__["__json_converter"]
+    mod.__dict__["__json_converter"] = make_json_converter()
+    try:
+        ser(kind_a, obj_a)
+        return ser(kind_b, obj_b)
+    finally:
+        mod.__dict__["__json_converter"] = keep
 
 
 def has_dup_ids(kind, obj):
@@ -701,6 +780,8 @@ def run(tier, seed, build):
         impl.reset_config()
         for s in all_symbol_shapes(rng):
             objects.append(("symbol", "syn:matrix", s, None))
+        for lineno in (1, 7):
+            objects.append(("fileir", f"syn:twin:{lineno}", syn_twin(lineno), None))
         for j in range(NSYN):
             r = j % 10
             if r < 4:
@@ -719,7 +800,8 @@ def run(tier, seed, build):
         # ---- implementation side, in-process
         model = common.Model()
         reqs, meta = [], []
-        for kind, label, obj, src in objects:
+        history_sigs = set()
+        for obj_index, (kind, label, obj, src) in enumerate(objects):
             res.evaluations += 1
             res.count(f"kind:{kind}")
             res.count(f"source:{label.split(':')[0] if label.startswith('syn') else 'harvest'}:{kind}")
@@ -748,26 +830,53 @@ def run(tier, seed, build):
                 res.nontrivial.add(d)
             res.sample({"kind": kind, "label": label, "document": doc_s[:600]}, cap=5)
 
-            # (canonical, in-process): permuted iteration orders
+            # (history): the bytes of this object must not depend on what this interpreter serialised
+            # before. doc_s was produced after ALL earlier objects of this run; compare with a fresh state.
+            fo = impl.outcome_of(ser_fresh, kind, obj)
+            alone = fo[1] if fo[0] == "ok" else None
+            if alone is None:
+                res.violations.append({"signature": f"serialise-crash:{kind}:{fo[1]}", "case": {**case, "object": enc}})
+            elif alone != doc_s:
+                dc = diff_class(pairs_loads(alone), doc)
+                # one signature per kind of document (none is ever a known finding; where the bytes differ
+                # is in `detail.diff`), so that these do not crowd out the other channels' replays
+                sig = f"serialise-depends-on-history:{kind}"
+                culprit = None
+                if sig not in history_sigs:
+                    history_sigs.add(sig)
+                    # minimise: ONE earlier object A such that serialise(A); serialise(B) != serialise(B)
+                    for (ka, la_, oa, _src) in reversed(objects[max(0, obj_index - 400):obj_index]):
+                        so2 = impl.outcome_of(ser_after, ka, oa, kind, obj)
+                        if so2[0] == "ok" and so2[1] != alone:
+                            culprit = {"kind": ka, "label": la_, "object": ENC[ka](oa)}
+                            break
+                res.violations.append({"signature": sig, "case": {**case, "B": enc if len(doc_s) < 20000 else "<large>",
+                                                                  "A_serialised_before_B": culprit,
+                                                                  "history_len": obj_index},
+                                       "detail": {"B_alone": alone[:400], "B_after_history": doc_s[:400], "diff": dc}})
+            else:
+                res.count("history:independent")
+
+            # (canonical, in-process): permuted iteration orders, each from a fresh state (so that state
+            # carried over from earlier objects cannot mask an order dependence)
             dup = has_dup_ids(kind, obj)
             if dup:
                 res.count("perm:skipped-duplicate-key-ids")
-            if kind != "symbol" and not dup:
+            if kind != "symbol" and not dup and alone is not None:
                 prng = random.Random(f"{seed}:{len(meta)}")
+                alone_doc = pairs_loads(alone)
                 for _ in range(NPERM):
-                    po = impl.outcome_of(lambda: ser(kind, permuted_copy(kind, obj, prng)))
+                    po = impl.outcome_of(lambda: ser_fresh(kind, permuted_copy(kind, obj, prng)))
                     if po[0] != "ok":
                         res.violations.append({"signature": f"serialise-crash:{kind}:{po[1]}", "case": {**case, "object": enc}})
                         break
-                    if po[1] != doc_s:
-                        dc = diff_class(doc, pairs_loads(po[1]))
+                    if po[1] != alone:
+                        dc = diff_class(alone_doc, pairs_loads(po[1]))
                         which = "ir" if kind in ("fileir", "outputirs") else kind
                         sig = order_signature("set-order", which, dc) if dc else f"{which}-bytes-differ:whitespace"
-                        if sig.startswith("ir-order") and sig.endswith("equal-sort-key"):
-                            res.count("perm:ties")
                         res.violations.append({"signature": sig, "case": {**case, "object": enc if len(doc_s) < 20000 else "<large>",
                                                                          "source": src},
-                                               "detail": {"a": doc_s[:300], "diff": dc}})
+                                               "detail": {"a": alone[:300], "diff": dc}})
                         break
                 else:
                     res.count("perm:invariant")
